@@ -320,6 +320,9 @@ func checkC11(c *core.Ctx) {
 		}()
 	}
 	wg.Wait()
+	if !c.Expired() && !c.TooManyViolations() {
+		c11TwoFiles(c, sc, fc)
+	}
 }
 
 func c11Program(cs *c11Case, k int) gobatch.Prog {
